@@ -6,6 +6,10 @@ package world
 func ShrinkCandidates(w World) []World {
 	var out []World
 	add := func(c World) { out = append(out, c) }
+	// tidy-up first: remove unreferenced options and parties
+	if c, changed := Compact(w); changed {
+		add(c)
+	}
 	// fewer threads
 	if w.Threads > 1 {
 		c := w.Clone()
@@ -204,10 +208,6 @@ func ShrinkCandidates(w World) []World {
 				add(c)
 			}
 		}
-	}
-	// final tidy-up: remove unreferenced options and parties
-	if c, changed := Compact(w); changed {
-		add(c)
 	}
 	return out
 }
